@@ -22,6 +22,7 @@ ID = "C08"
 
 BASE = {"prog.cc": b"int main(){}\n", "key.asc": b"-----\n", "caf\udce9.txt": b"latin-1 file name\n", "notes.txt.old.txt": b"n\n", "a.txt-b.txt": b"ab\n", "index.html.bak.html": b"<html><body>no title</body></html>\n", "a.txt": b"A\n", "b.html": worlds.HTML, "c.txt.gz": worlds.gz(b"c\n"), "d": {"inner.txt": b"i\n"}, "sub": {"x.txt": b"x\n"}, "a.txt.abstract": b"sidecar abstract of a\n", "e.txt": b"E\n",
         # titles whose order differs from the order of the file names once the extension is gone; extensions that are not lower case
+        "list.txt": b"l\n", "text.txt": b"t\n",  # base names ending in characters of their own extension
         "notes-old.txt": b"no\n", "notes.txt": b"n\n", "CHANGES.TXT": b"ch\n", "Readme.Txt": b"r\n", "page.HTML": b"<html><body>p</body></html>\n"}
 
 # block = list of lines (bytes); kind o = override of ./target, n = new entry
